@@ -51,7 +51,7 @@ def gen_session(rng, wills=False, flow=False):
                 ops.append("api expire")
             elif r < 0.65:
                 ops.append("api term cx")
-            elif r < 0.70 and not wills:
+            elif r < 0.70 and not wills and not flow:
                 # simultaneous CONNECTs with the one client id (all closed again afterwards)
                 ops.append(f"race {rng.choice([2, 3, 4])} cx v={rng.choice([4, 5])} cs=0 se=300")
             else:
